@@ -55,6 +55,13 @@ def units(tier, seed):
                 us.append({"kind": "dev", "shape": list(shape), "base": b, "maxdev": 1,
                            "seed": seed, "maxinlets": 1})
         us.append({"kind": "dev", "shape": [2, 3], "base": "converge", "maxdev": 2, "seed": seed, "maxinlets": 1})
+        # a pit receiving from all 8 neighbours (3x3) / a pit basin (5x5, 4x5): <= 1 deviation
+        for shape in ((3, 3), (5, 5), (4, 5)):
+            us.append({"kind": "dev", "shape": list(shape), "base": "pit", "maxdev": 1, "seed": seed,
+                       "maxinlets": 1 if shape == (3, 3) else 0})
+        # serpentine rivers longer than the grid perimeter (4x5, 5x5, 3x9)
+        for shape in ((4, 5), (5, 5), (3, 9)):
+            us.append({"kind": "dev", "shape": list(shape), "base": "snake", "maxdev": 1, "seed": seed, "maxinlets": 0})
         us.append({"kind": "dev", "shape": [3, 3], "base": "converge", "maxdev": 2, "seed": seed, "maxinlets": 1, "part": [0, 4]})
         us.append({"kind": "dev", "shape": [3, 3], "base": "converge", "maxdev": 2, "seed": seed, "maxinlets": 1, "part": [1, 4]})
         us.append({"kind": "dev", "shape": [3, 3], "base": "converge", "maxdev": 2, "seed": seed, "maxinlets": 1, "part": [2, 4]})
@@ -74,6 +81,11 @@ def units(tier, seed):
             u["maxinlets"] = 0
             u["light"] = True       # relations + areas only (3 million grids): flow paths and rivers are
             us.append(u)            # covered on all grids <= 6 cells and on the deviation families
+        for shape in ((3, 3), (5, 5), (4, 5), (3, 9)):
+            for b in ("pit", "snake"):
+                for p in range(4):
+                    us.append({"kind": "dev", "shape": list(shape), "base": b, "maxdev": 2 if shape == (3, 3) else 1,
+                               "seed": seed, "maxinlets": 1, "part": [p, 4]})
         for shape in ((1, 8), (8, 1), (2, 5), (4, 4)):
             for b in ("east", "converge", "snake"):
                 nparts = 8 if shape == (4, 4) else 4
